@@ -228,7 +228,7 @@ def run(ch, config, res):
                 if wl.flag("foreign_content", 1, 5):
                     # replacefilter takes any command: here a bare action taken from a parsed script, not an "if" rule
                     content = E.parsed_command(["keep;\n", 'redirect "a@example.org";\n', "discard;\n"][wl.int("foreign", 3)])
-                desc = [None, gen_label(wl, "desc", 1, 14), "", gen_long_desc(wl, "longdesc")][wl.weighted("hasdesc", [1, 4, 1, 2])]
+                desc = [None, gen_label(wl, "desc", 1, 14), "", gen_long_desc(wl, "longdesc"), n][wl.weighted("hasdesc", [1, 4, 1, 2, 1])]     # the last: a description that merely repeats the name
                 if desc and (name_pre.strip() in desc or desc_pre.strip() in desc):
                     desc = desc.replace("#", "h")
                 # one replace in three also renames - onto a free name or onto a name that is taken (refused: nothing changes)
